@@ -408,6 +408,24 @@ func c18Run(c *mon.Ctx, idx int) {
 	if !has["tag"] {
 		same("neutral-tag-bexpr", append([]optSpec{{kind: "tag", tag: "bexpr"}}, set...))
 	}
+	// a tag key that no field of the datum carries - "zz9", or the empty key -
+	// hides and renames nothing: both must behave alike (as the last tag option)
+	{
+		var rest []optSpec
+		for _, o := range set {
+			if o.kind != "tag" {
+				rest = append(rest, o)
+			}
+		}
+		o1, ok1, _ := c18Eval(text, node, append(append([]optSpec(nil), rest...), optSpec{kind: "tag", tag: "zz9"}))
+		o2, ok2, _ := c18Eval(text, node, append(append([]optSpec(nil), set...), optSpec{kind: "tag", tag: ""}))
+		c.Evals(2)
+		if ok1 != ok2 || (ok1 && o1.Class3() != o2.Class3()) {
+			c.Violation(fmt.Sprintf("C18 unused-tag-keys-differ zz9=%s empty=%s", o1.Class3(), o2.Class3()), "two tag names that no field of the datum carries (\"zz9\" and the empty name, given last) gave different outcomes",
+				map[string]any{"expression": clip(text, 300), "datum": clip(node.Describe(), 1000), "options": describeList(set), "with_zz9": o1.String(), "with_empty": o2.String()})
+		}
+		c.Count("rel:unused-tag-keys-equivalent")
+	}
 	if !has["max"] {
 		same("neutral-budget-0", append(append([]optSpec(nil), set...), optSpec{kind: "max", max: 0}))
 		same("neutral-budget-above-steps", append([]optSpec{{kind: "max", max: steps + 1 + uint64(r.Intn(1000))}}, set...))
